@@ -73,7 +73,7 @@ abbrev CMon := List Ev → Option String
 def cmonFor : String → List CMon
   | "C01" => [oneSenderPerTerm, oneGrantPerTerm, configGated]
   | "C02" => [streamsAgree, streamsInOrder]
-  | "C03" => [ackedSurvive, streamsAgree, currentTermRule]
+  | "C03" => [ackedSurvive, streamsAgree, currentTermRule, configGated]
   | "C04" => [logsAgree, termsMonotone, retainedAgree]
   | "C05" => [commitLeLast, currentTermRule, ackedSurvive, streamsAgree]
   | "C07" => [configGated]
